@@ -127,7 +127,7 @@ func (ex *Exec) VerifyFunc(ct *Contract) (res *FuncResult) {
 		Decls: append([]string(nil), st.decls...), PC: append([]T(nil), st.pc...), Goal: Bool(false), Src: "requires are satisfiable"})
 	_, rn := paramNames(fn.Signature, fn)
 	fr := &frame{ex: ex, fn: fn, top: tc, contract: ct, stack: []string{fn.String()}}
-	coverDone := map[int]bool{}
+	coverDone := map[int]int{}
 	fr.ret = func(st2 *PState, results []Val, site int) {
 		res.Returns++
 		rv := map[string]Val{}
@@ -151,8 +151,8 @@ func (ex *Exec) VerifyFunc(ct *Contract) (res *FuncResult) {
 				Src: "ensures " + en.Src})
 		}
 		ex.frameObligations(tc, fr, st2, ct, rv, site)
-		if !coverDone[site] {
-			coverDone[site] = true
+		if coverDone[site] < 6 {
+			coverDone[site]++
 			tc.addObl(&Obligation{Name: fmt.Sprintf("%s/cover:ret%d", ShortName(fn.String()), site), Func: fn.String(), Kind: "cover", Cover: true,
 				Decls: append([]string(nil), st2.decls...), PC: append([]T(nil), st2.pc...), Goal: Bool(false), Src: "return site reachable"})
 		}
